@@ -116,6 +116,52 @@ PROPS = {
                      "the theorems speak about trees; that the parser output does not depend on renderer options is checked by the oracle "
                      "(8 independent Convert calls), not proved"],
     ),
+    "C17": dict(
+        level="proof",
+        module="GM.Props.C17",
+        claim="Kernel-checked theorems, for every source, every paragraph (list of line segments) and every alignment list, about a Lean model "
+              "of the table extension's Transform / parseRow / parseDelimiter and of the thead/tbody/tr/th/td emission of its render functions: "
+              "body rows have exactly one cell per column (padding and truncation), written cells carry their column's alignment, a header whose "
+              "cell count differs from the delimiter row yields no table, one header row first, and the rendered tag skeleton matches an "
+              "independently written grammar of a rectangular table. The model is tied to the Go code by exhaustive small-scope and random "
+              "differential runs of the public ParagraphTransformer and the real HTML renderer; the property is additionally checked directly on "
+              "the real HTML and AST of random pipe/dash/colon documents. A proof is the right level because the property quantifies over all rows of any length.",
+        note="Trusted: Lean kernel (+ propext, Classical.choice, Quot.sound), the correspondence harness, the hand-written matchers for the four "
+             "delimiter regexps (RE2 semantics; validated differentially). Cell *content* is abstract in the skeleton: that inline content cannot emit "
+             "table tags is C03's subject and is covered here only by the document-level oracle in safe mode.",
+        technique="Lean 4 theorems (induction over the row loop / the paragraph's lines) over a hand-written model; differential correspondence check "
+                  "against extension.NewTableParagraphTransformer().Transform and TableHTMLRenderer; document-level oracle on goldmark.Convert output",
+        components=["table"],
+        explanation="Theorems over all sources/paragraphs about GM.Model.Table (parseRow_len, parseRow_align, parseRow_padding, header_guard, "
+                    "transform_first_delim, table_rectangular, one_header, parseDelimiter_needs_dash, rendered_rectangular against GM.Spec.Table.Rectangular); "
+                    "component table compares Transform's AST (alignments, rows, per-cell alignment/segment/escaped-pipe positions, remaining paragraph lines) and "
+                    "the rendered tag skeleton with the model on an exhaustively enumerated scope + random paragraphs, and checks C17 directly on the HTML and AST "
+                    "of random documents (tables in lists/quotes/after text, escaped pipes, code spans) under Table, GFM, XHTML and align-attribute configurations.",
+        assumptions=["paragraph line segments lie inside the source and have ForceNewline=false (only code blocks set it); the paragraph has a parent",
+                     "Go regexp (RE2) semantics of the four delimiter patterns are modelled by hand-written greedy matchers and validated differentially",
+                     "inline content of a cell emits no table tags (safe mode; property C03); node attributes set by user AST transformers are out of scope"],
+    ),
+    "C16": dict(
+        level="proof",
+        module="GM.Props.C16",
+        claim="Kernel-checked theorem footnote_consistent: for every id prefix, every list of definition labels and every sequence of reference "
+              "events (any order/multiplicity, under images, inside other footnotes, referenced or not), the Lean model of the footnote extension "
+              "(index assignment at first reference, the footnoteLinkIsRendered filter, reference counting, back-link synthesis, removal of "
+              "unreferenced definitions, ordering, decimal id/href formatting) produces consistently numbered items, references that link to exactly one "
+              "item and show its number, back-links in one-to-one correspondence with rendered references, pairwise distinct ids, and no output for "
+              "unreferenced definitions. A proof is the right level because the property quantifies over all placements and multiplicities of references.",
+        note="Trusted: Lean kernel (+ propext, Classical.choice, Quot.sound), the correspondence harness (probe inline parser delegating to the real "
+             "footnote parser, probe AST transformer at priority 998, HTML id/href extraction). The abstraction of a document into (labels, events) "
+             "is computed from the real parse, not proved. 'Referenced' is read at source level (any recognised [^label], also in alt text or in a removed footnote).",
+        technique="Lean 4 theorems over a hand-written model; differential correspondence check against the Go implementation; property oracle on the rendered HTML",
+        components=["footnote"],
+        explanation="Theorems over all definition/reference sequences about the Lean model of extension/footnote.go (GM.Model.Footnote); the model's "
+                    "input is derived from the real parse by two passive probes and its predicted ids, hrefs, shown numbers, link counters and item "
+                    "provenance are compared with the real HTML and final AST on an exhaustively enumerated token scope plus random documents; "
+                    "the C16 clauses are also evaluated directly on the real HTML (a dangling back-link is classified by cause).",
+        assumptions=["the document abstraction (definition labels in block-phase order, reference events in inline-phase order with image/host flags) is observed on the real parse by probes, not derived in Lean",
+                     "FootnoteIDPrefixFunction (a per-node prefix callback) is outside the modelled configuration; a constant IDPrefix is covered"],
+    ),
 }
 
 # Properties not claimed yet, with the reason shown in MANIFEST.not_applicable.
